@@ -138,3 +138,11 @@ def rules(t, *a, **kw):
     out = _rules_C18_w7b(t, *a, **kw)
     out.append(W7.challenge_sequence_use(t, "C18.p"))
     return out
+
+
+_rules_C18_w9 = rules
+def rules(t, *a, **kw):
+    import rules.C20 as C20
+    out = _rules_C18_w9(t, *a, **kw)
+    out.append(C20.timeout_always_evaluated(t, "C18.q"))
+    return out
